@@ -75,7 +75,7 @@ C05_FailureReported     == (Quiescent /\ \E s \in TopLevel \cap DOMAIN st : st[s
 C05_NoRunningInFinished == (Quiescent /\ wf.status \in Final) => \A s \in DOMAIN st : st[s].status # "RUNNING"
 
 (* C06  every durable status change is a legal transition; completed is final except re-arm by a jump *)
-RearmStep == lbl'.name = "JumpApply"
+RearmStep == lbl'.name \in {"JumpApply", "RestartStage"}     \* a jump or an operator restart explicitly re-arms
 C06_Legal_A ==
   /\ \A s \in DOMAIN st \cap DOMAIN st' :
         (st'[s].status # st[s].status) =>
@@ -83,14 +83,15 @@ C06_Legal_A ==
   /\ \A t \in DOMAIN tk \cap DOMAIN tk' :
         (tk'[t].status # tk[t].status) =>
             (CanTransition(tk[t].status, tk'[t].status) \/ (RearmStep /\ tk'[t].status = "NOT_STARTED"))
-  /\ ((wf'.status # wf.status) => CanTransition(wf.status, wf'.status))
+  /\ ((wf'.status # wf.status) => (CanTransition(wf.status, wf'.status)
+                                      \/ (lbl'.name = "RestartStage" /\ wf'.status = "RUNNING")))
 C06_Legal == [][C06_Legal_A]_vars
 C06_CompletedIsFinal_A ==
   /\ \A s \in DOMAIN st \cap DOMAIN st' :
         (st[s].status \in Complete /\ st'[s].status # st[s].status) => (RearmStep /\ st'[s].status = "NOT_STARTED")
   /\ \A t \in DOMAIN tk \cap DOMAIN tk' :
         (tk[t].status \in Complete /\ tk'[t].status # tk[t].status) => (RearmStep /\ tk'[t].status = "NOT_STARTED")
-  /\ ((wf.status \in Complete) => (wf'.status = wf.status))
+  /\ ((wf.status \in Complete) => (wf'.status = wf.status \/ (lbl'.name = "RestartStage" /\ wf'.status = "RUNNING")))
 C06_CompletedIsFinal == [][C06_CompletedIsFinal_A]_vars
 
 (* C09  a message whose handling committed is never handled again *)
